@@ -176,6 +176,9 @@ fn gen_items(rng: &mut Rng, which: u8) -> Vec<WItem> {
                     if rng.chance(1, 4) {
                         v.rename = Some(rename_value(&vst, rng, true));
                     }
+                    if rng.chance(1, 8) {
+                        v.extra_serde.push("skip_deserializing".into());
+                    }
                     vs.push(WVariant { v, stem: vst, fields: vec![], newtype_val: None });
                 }
                 let mut it = Item::new(&ident, Kind::Enum { variants: vs.iter().map(|w| w.v.clone()).collect(), tag: None, content: None });
@@ -232,6 +235,10 @@ fn gen_items(rng: &mut Rng, which: u8) -> Vec<WItem> {
                     if matches!(v.kind, VKind::Struct(_)) && rng.chance(if which == 1 { 3 } else { 1 }, 5) {
                         v.rename_all = Some(rng.pick(&RULES).to_string());
                     }
+                    // a variant serde only writes (never reads) is still a variant on the wire
+                    if which != 1 && rng.chance(1, 8) {
+                        v.extra_serde.push("skip_deserializing".into());
+                    }
                     vs.push(WVariant { v, stem: vst, fields, newtype_val });
                 }
                 let (tag, content) = *rng.pick(&TAGS);
@@ -251,6 +258,12 @@ fn gen_items(rng: &mut Rng, which: u8) -> Vec<WItem> {
                 }
                 let mut it = Item::new(&ident, Kind::Enum { variants: vs.iter().map(|w| w.v.clone()).collect(), tag: Some(tag.into()), content: Some(content.into()) });
                 it.rename_all = rename_all;
+                // serde's enum-level default for the fields of struct variants: a variant's own rename_all wins over it, so
+                // it is only given where every struct variant has its own rule (typeshare does not read the attribute)
+                let struct_variants: Vec<&WVariant> = vs.iter().filter(|v| matches!(v.v.kind, VKind::Struct(_))).collect();
+                if !struct_variants.is_empty() && struct_variants.iter().all(|v| v.v.rename_all.is_some()) && rng.coin() {
+                    it.extra_serde.push(format!("rename_all_fields = \"{}\"", rng.pick(&RULES)));
+                }
                 if generic {
                     it.generics = vec!["T".into()];
                 }
@@ -647,9 +660,9 @@ pub fn run(ctx: &Ctx, which: u8) -> (Spec, Report) {
     let spec = Spec {
         level: "translation_validation",
         rule: if which == 1 {
-            format!("{n_prog} generated programs (structs and struct variants, 1-8 conventionally named fields incl. raw identifiers, target-language keywords and names that open with single-letter words (`r_g_b`), serde(rename) over [A-Za-z_][A-Za-z0-9_-]*, 8 rename_all rules on container/variant, any attribute spelling/order, generic containers, prefix/package settings) x 6 languages; every field's bound key (TS property, @SerialName, CodingKeys, json tag, pydantic alias) is compared with the key real serde_json emitted for the same field (matched by ordinal sentinel values); a cell is distinct by (language, rule, rename/rule, container kind, key class) and non-trivial when key != Rust identifier")
+            format!("{n_prog} generated programs (structs and struct variants, 1-8 conventionally named fields incl. raw identifiers, target-language keywords and names that open with single-letter words (`r_g_b`), serde(rename) over [A-Za-z_][A-Za-z0-9_-]*, 8 rename_all rules on container/variant (also beneath an enum-level rename_all_fields, which a variant's own rule overrides), any attribute spelling/order, generic containers, prefix/package settings) x 6 languages; every field's bound key (TS property, @SerialName, CodingKeys, json tag, pydantic alias) is compared with the key real serde_json emitted for the same field (matched by ordinal sentinel values); a cell is distinct by (language, rule, rename/rule, container kind, key class) and non-trivial when key != Rust identifier")
         } else {
-            format!("{n_prog} generated programs (unit enums and adjacently tagged enums, 1-8 variants, unit/newtype/struct variants, 8 rename_all rules, per-variant renames, 15 tag/content key pairs (with acronyms, and with Kotlin-only hard keywords as keys), generics, self-recursion) x 6 languages; variant wire names, every tag/content key site and the one-case-per-variant structure of the generated code are compared with real serde_json output for each variant; non-trivial = wire name != Rust identifier, or a tag/content site")
+            format!("{n_prog} generated programs (unit enums and adjacently tagged enums, 1-8 variants, unit/newtype/struct variants, 8 rename_all rules, per-variant renames, variants marked skip_deserializing (still written by serde), 15 tag/content key pairs (with acronyms, and with Kotlin-only hard keywords as keys), generics, self-recursion) x 6 languages; variant wire names, every tag/content key site and the one-case-per-variant structure of the generated code are compared with real serde_json output for each variant; non-trivial = wire name != Rust identifier, or a tag/content site")
         },
         assumptions: vec![
             "foreign facts are recovered by this harness's parsers (CPython for Python)".into(),
